@@ -17,6 +17,14 @@ Labels of categorical components are integers (the harness maps them to strings 
 lexicographic order is the integer order); `categories` / `indexOf` come from
 `Model/ArrayUtil` (`np.unique`, proved sorted/unique in C20).  A numeric value is `Option Rat`
 (`none` = NaN).  Rotations are given by a rational unit vector `(c, s) = (cos θ, sin θ)`.
+
+**Category lists are taken in the order they are passed** (`x_categories` / `y_categories` of
+`roi_to_subset_state`, the `categories` argument of `from_range`): position `i` on a categorical axis
+is `categories[i]`, so the plotted position of a label is its index in the list *as given*
+(`indexOf l cs`; = `CategoricalComponent(labels, categories=cs).codes`).  Nothing in the model or the
+Spec assumes the list is sorted; sortedness is an internal need of `CategoricalROI.contains`
+(`searchsorted`), established by `update_categories` (`np.unique`) — `fromRange` models exactly that,
+`fromRangeNoSort` is the variant without it (kept for the `contains_needs_sorted` witness).
 -/
 namespace GlueVerif.C09
 open GlueVerif.ArrayUtil
@@ -293,8 +301,33 @@ def pySlice (xs : List Int) (lo hi : Nat) : List Int := (xs.drop lo).take (hi - 
 def fromRange (cats : List Int) (lo hi : Rat) : List Int :=
   categories (pySlice cats (clampCeil lo) (clampCeil hi))
 
+/-- `CategoricalROI.from_range` **without** `update_categories` (`roi.categories = categories[lo:hi]`):
+the sliced categories stored in the order given.  Not what the code does — the witness
+`contains_needs_sorted` shows why the `np.unique` (sort) in `update_categories` is needed. -/
+def fromRangeNoSort (cats : List Int) (lo hi : Rat) : List Int :=
+  pySlice cats (clampCeil lo) (clampCeil hi)
+
 /-- `np.searchsorted(cats, v)` (left) on a sorted array: the number of leading elements `< v`. -/
 def searchsorted (cats : List Int) (v : Int) : Nat := (cats.takeWhile (· < v)).length
+
+/-- numpy's `binsearch<left>` loop for one key, literally (`fuel ≥ log₂ n + 1` iterations):
+`while lo < hi: mid = lo + (hi - lo) / 2; if a[mid] < key: lo = mid + 1 else: hi = mid`.
+On a sorted array it returns `searchsorted`; on an unsorted one it returns whatever the probes
+lead to (used only by the witness `contains_needs_sorted`). -/
+def searchsortedBin (cats : List Int) (v : Int) : Nat → Nat → Nat → Nat
+  | 0, lo, _ => lo
+  | fuel + 1, lo, hi =>
+    if lo < hi then
+      let mid := lo + (hi - lo) / 2
+      match cats[mid]? with
+      | some a => if a < v then searchsortedBin cats v fuel (mid + 1) hi else searchsortedBin cats v fuel lo mid
+      | none => lo
+    else lo
+
+/-- `CategoricalROI.contains` for one label with the literal binary search. -/
+def catRoiContainsBin (cats : List Int) (v : Int) : Bool :=
+  if cats.isEmpty then false
+  else cats[min (searchsortedBin cats v (cats.length + 1) 0 cats.length) (cats.length - 1)]? == some v
 
 /-- `CategoricalROI.contains` for one label. -/
 def catRoiContains (cats : List Int) (v : Int) : Bool :=
@@ -446,7 +479,8 @@ def roiToStateUnfixed (r : Roi) (xc yc : Option (List Int)) (usePre : Bool) : St
 
 /-! ## Spec: what the property demands -/
 
-/-- Plotted coordinate of a value on an axis: the category code on a categorical axis. -/
+/-- Plotted coordinate of a value on an axis: on a categorical axis the label's position in the
+category list **as passed** (`indexOf l cs` — position `i` ↔ `cs[i]`; the list may be in any order). -/
 def plotCoord (cats : Option (List Int)) : Val → Option Rat
   | .num q => match cats with | none => q | some _ => none
   | .lab l => match cats with | some cs => some ((indexOf l cs : Nat) : Int) | none => none
@@ -518,10 +552,17 @@ def valOk (cats : Option (List Int)) : Val → Bool
   | .lab l => match cats with | some cs => cs.contains l | none => false
   | .num _ => cats.isNone
 
-/-- Category lists are sorted and duplicate free (they come from `np.unique`). -/
+/-- Duplicate-free list (decidable): every label has exactly one position. -/
+def noDup : List Int → Bool
+  | [] => true
+  | x :: xs => !xs.contains x && noDup xs
+
+/-- Category lists are duplicate free — **in any order** (sorted when they come from `np.unique` as
+in the viewers, but a `CategoricalComponent(labels, categories=[...])` keeps the order it is given and
+`roi_to_subset_state` is handed `component.categories`). -/
 def catsOk : Option (List Int) → Bool
   | none => true
-  | some cs => strictSorted cs
+  | some cs => noDup cs
 
 /-- Hypothesis of the main theorem `roi_selection`: well-kinded inputs as the viewers produce
 them, and — when exactly one axis is categorical and the region goes through its polygon — the
@@ -550,5 +591,72 @@ def specMask (ε : Rat) (r : Roi) (xc yc : Option (List Int)) (pre : Option Affi
   m.length == es.length &&
   (es.zip m).all fun em =>
     specNear ε r xc yc pre em.1 || (em.2 == specSelected r xc yc pre em.1)
+
+/-! ## Spec for `CategoricalROI.from_range` alone, and for category lists with duplicates -/
+
+/-- Every position at which the label occurs in the list as passed (one for a duplicate-free list
+that contains it, none for a foreign label). -/
+def positionsOf (l : Int) (cs : List Int) : List Nat :=
+  (List.range cs.length).filter fun i => cs[i]? == some l
+
+/-- Spec verdict on `from_range(cats, lo, hi).contains(l) = m`, for a category list in **any order**
+(duplicates allowed): a foreign label is not contained; otherwise the answer must be the one demanded
+by (one of) the label's position(s) `i` in the list as passed: `lo < i < hi`, the position `i = lo`
+excepted.  For a duplicate-free list there is exactly one position, `indexOf l cats`. -/
+def specFromRange (cats : List Int) (lo hi : Rat) (l : Int) (m : Bool) : Bool :=
+  match positionsOf l cats with
+  | [] => m == false
+  | ps => ps.any fun i =>
+    let q : Rat := ((i : Nat) : Int)
+    decide (q = lo) || (m == (decide (lo < q) && decide (q < hi)))
+
+/-- Plotted coordinates a value may have on an axis: one per occurrence of its label in the category
+list (exactly `[plotCoord cats v]` when the list is duplicate free and contains the label). -/
+def plotCoords (cats : Option (List Int)) : Val → List (Option Rat)
+  | .num q => [match cats with | none => q | some _ => none]
+  | .lab l => match cats with
+    | some cs => (positionsOf l cs).map fun i => some (((i : Nat) : Int) : Rat)
+    | none => [none]
+
+/-- Candidate points the region is compared with (`specPoint` for every occurrence). -/
+def specPoints (r : Roi) (xc yc : Option (List Int)) (pre : Option Affine) (e : Elem) : List (Option Pt) :=
+  match r, pre with
+  | .range .x _ _, none => (plotCoords xc e.x).map fun ox => ox.map fun x => ⟨x, 0⟩
+  | .range .y _ _, none => (plotCoords yc e.y).map fun oy => oy.map fun y => ⟨0, y⟩
+  | _, _ => (plotCoords xc e.x).flatMap fun ox => (plotCoords yc e.y).map fun oy =>
+    match ox, oy with
+    | some x, some y => some (applyPre pre ⟨x, y⟩)
+    | _, _ => none
+
+/-- Spec verdict on a whole mask when a category list contains **duplicates** (never produced by the
+viewers; outside the hypotheses of the theorems): a label then has several plotted positions and the
+answer must be justified by one of them — if every position of the element is inside the region
+(off the band) it must be selected, if none is it must not be.  Coincides with `specMask` on
+duplicate-free lists (one candidate). -/
+def specMaskAny (ε : Rat) (r : Roi) (xc yc : Option (List Int)) (pre : Option Affine)
+    (es : List Elem) (m : List Bool) : Bool :=
+  m.length == es.length &&
+  (es.zip m).all fun em =>
+    match r with
+    | .categorical _ => em.2 == specSelected r xc yc pre em.1
+    | _ =>
+      match specPoints r xc yc pre em.1 with
+      | [] => em.2 == false
+      | cands => cands.any fun c => match c with
+        | some p => near ε r p || (em.2 == roiContains r p)
+        | none => em.2 == false
+
+/-- With duplicated entries: the element's candidate positions do not all give the same clear answer
+(one of them is in the band, or they disagree).  On float-affected paths which occurrence "wins"
+(Python dict: the last one with a non-empty entry) can hinge on rounding noise at a degenerate
+(tangent) occurrence, so the driver does not predict the mask there.  `= specNear` for one candidate. -/
+def specAmbiguous (ε : Rat) (r : Roi) (xc yc : Option (List Int)) (pre : Option Affine) (e : Elem) : Bool :=
+  let cands := specPoints r xc yc pre e
+  let ins := cands.map fun c => match c with
+    | some p => roiContains r p
+    | none => false
+  (cands.any fun c => match c with
+    | some p => near ε r p
+    | none => false) || (ins.any id && ins.any not)
 
 end GlueVerif.C09
